@@ -17,10 +17,18 @@ package memory
 //@   requires s != nil
 //@   ensures[C10] err == nil && n == ite(storageID.Side == fix.Incoming, s.counterIncoming, s.counterOutgoing)
 
+// after a reset the numbering of that direction starts again at 1 (the counter holds the last
+// number handed out), the other direction is untouched
+//@ func (s *Storage) ResetSeqNum(storageID fix.StorageID) (err error)
+//@   requires s != nil
+//@   modifies s.counterIncoming, s.counterOutgoing
+//@   ensures[C05,C10] @restart err == nil && imp(storageID.Side == fix.Incoming, s.counterIncoming == 0 && s.counterOutgoing == old(s.counterOutgoing)) && imp(storageID.Side != fix.Incoming, s.counterOutgoing == 0 && s.counterIncoming == old(s.counterIncoming))
+
 //@ func (s *Storage) SetSeqNum(storageID fix.StorageID, seqNum int) (err error)
 //@   requires s != nil
 //@   modifies s.counterIncoming, s.counterOutgoing
 //@   ensures[C10] err == nil && imp(storageID.Side == fix.Incoming, s.counterIncoming == seqNum && s.counterOutgoing == old(s.counterOutgoing))
+//@   ensures[C05,C10] @outgoing imp(storageID.Side != fix.Incoming, s.counterOutgoing == seqNum && s.counterIncoming == old(s.counterIncoming))
 
 //@ func (s *Storage) Save(id fix.StorageID, msg simplefixgo.SendingMessage, msgSeqNum int) (err error)
 //@   requires s != nil && s.messages != nil
